@@ -452,7 +452,10 @@ class SimDevice:
         if op in (0x02, 0x03) and not hb.get("ready"):
             raise SW(0x6B10)
         if op == 0x02:
-            return bytes([CLA, 0x60, op]) + hb.get("signature", b"")
+            sig = hb.get("signature", b"")
+            if callable(sig):
+                sig = sig()     # a fresh (well-formed) signature per heartbeat
+            return bytes([CLA, 0x60, op]) + sig
         if op == 0x03:
             msg = hb.get("message", b"")
             if callable(msg):
